@@ -678,20 +678,20 @@ func CellBytes(data []byte, pos int, typ byte, metadata uint16, isUnSignedInt bo
 			if flag { //当txt有正整数写入
 				fmt.Fprintf(txt, "%09d", val)
 			} else if val > 0 { //当txt无正整数且val>0时 才能写入
-				fmt.Fprintf(txt, "%9d", val)
+				fmt.Fprintf(txt, "%d", val)
 				flag = true
 			}
 			pos += 4
 		}
 
-		// now see if we have a fraction
-		if scale == 0 {
-			return txt.Bytes(), l, nil
-		}
-
 		//当txt无正整数，此时需要在小数点前加上0，表示生成的数整数部分没有值。
 		if !flag {
 			txt.WriteByte('0')
+		}
+
+		// now see if we have a fraction
+		if scale == 0 {
+			return txt.Bytes(), l, nil
 		}
 
 		txt.WriteByte('.')
